@@ -148,6 +148,13 @@ where
     /// an open hypergraph biased towards interesting dependency structure
     fn dep_oh(c: &mut Ctx) -> ROH {
         let p = gen::hg_params(c.size.max(2));
+        if c.rng.chance(1, 4) {
+            // ranked DAG (or one back edge): joins of arms of unequal length, nodes reached twice in a step
+            let (d, k) = gen::dag_hg(&mut c.rng, c.size, &p);
+            c.knob(k);
+            let nn = d.w.len();
+            return ROH { s: RFF::new(gen::list_below(&mut c.rng, 3, nn), nn), t: RFF::new(gen::list_below(&mut c.rng, 3, nn), nn), h: d };
+        }
         let mut f = gen::oh(&mut c.rng, &p);
         let ne = f.h.x.len();
         let nn = f.h.w.len();
